@@ -163,7 +163,6 @@ func (k *Keeper) Slash(ctx sdk.Context, parameter *types.SlashInputInfo) error {
 	if err != nil {
 		return err
 	}
-	writeFunc()
 	// store the slash information
 	height := ctx.BlockHeight()
 	slashInfo := types.OperatorSlashInfo{
@@ -174,10 +173,13 @@ func (k *Keeper) Slash(ctx sdk.Context, parameter *types.SlashInputInfo) error {
 		SlashProportion: parameter.SlashProportion,
 		ExecutionInfo:   executionInfo,
 	}
-	err = k.UpdateOperatorSlashInfo(ctx, parameter.Operator.String(), parameter.AVSAddr, parameter.SlashID, slashInfo)
+	// the slash information is written in the same cache context, so that a rejected record
+	// (e.g. a slashID that has already been executed) discards the asset changes as well.
+	err = k.UpdateOperatorSlashInfo(cc, parameter.Operator.String(), parameter.AVSAddr, parameter.SlashID, slashInfo)
 	if err != nil {
 		return err
 	}
+	writeFunc()
 	return nil
 }
 
